@@ -750,6 +750,12 @@ def _worker(args):
     try:
         if fixed is not None:
             spec, info = fixed["spec"], fixed.get("info", {})
+        elif rest and rest[0] == "shapes":
+            # the data-shape class (`harness/datashapes.py`): whole columns untyped-null / typed-null / null but one
+            # value / Object / zero rows, in every role; its own random stream
+            from . import datashapes
+
+            spec, info = datashapes.gen_corr_doc(common.sub_rng(seed, "encodecorr", "shapes", stage, k), stage, k)
         elif rest and rest[0]:
             # the header-variation class (`vary_headers`): its own random stream, the stages' streams stay as they were
             spec, info = gen_doc(common.sub_rng(seed, "encodecorr", "headers", stage, k), stage, k, vary=True)
@@ -813,13 +819,17 @@ def compare(outs):
 
 
 HEADER_SHARE = {1: 6, 2: 2, 3: 4}      # header-variation documents per stage: n_per_stage // share
+SHAPE_SHARE = {1: 6, 2: 4, 3: 2}       # data-shape documents per stage (`harness/datashapes.py`)
 
 
-def generate_and_compare(seed: int, n_per_stage: int, stages=(1, 2, 3), headers: bool = False):
-    """`headers=True` adds the documents of the header-variation class (`vary_headers`) to every stage"""
+def generate_and_compare(seed: int, n_per_stage: int, stages=(1, 2, 3), headers: bool = False, shapes: bool = False):
+    """`headers=True` adds the documents of the header-variation class (`vary_headers`) to every stage, `shapes=True`
+    those of the data-shape class (`datashapes.gen_corr_doc`)"""
     jobs = [(seed, st, k, None) for st in stages for k in range(n_per_stage)]
     if headers:
         jobs += [(seed, st, k, None, True) for st in stages for k in range(n_per_stage // HEADER_SHARE[st])]
+    if shapes:
+        jobs += [(seed, st, k, None, "shapes") for st in stages for k in range(n_per_stage // SHAPE_SHARE[st])]
     outs = common.pool_map(_worker, jobs, chunksize=8)
     for o in outs:
         if "machinery" in o:
@@ -830,12 +840,15 @@ def generate_and_compare(seed: int, n_per_stage: int, stages=(1, 2, 3), headers:
 def run(res, tier):
     """per-stage byte agreement of the encoder model with the implementation; returns the list of outcomes"""
     n = 150 if tier == "quick" else 1200
-    outs = generate_and_compare(res.seed, n, headers=True)
+    from . import datashapes
+
+    outs = generate_and_compare(res.seed, n, headers=True, shapes=True)
     for o in outs:
         st = STAGE_NAMES[stage_of(o["spec"])]
         case = dict(level="encode-doc", spec=o["spec"], info={k: v for k, v in o["info"].items() if k != "expect"})
         res.count(f"encode:{st}:{o['verdict']}")
         count_header_rows(res, o["info"])
+        datashapes.count(res, o["info"], prefix="datashape:encode")
         if o["verdict"] in ("agree", "both-error"):
             res.corr_checked += 1
         elif o["verdict"] in ("near", "construct-error"):
@@ -864,7 +877,7 @@ def main(argv):
     import time
 
     t0 = time.time()
-    outs = generate_and_compare(seed, n, headers=True)
+    outs = generate_and_compare(seed, n, headers=True, shapes=True)
     stats: dict = {}
     for o in outs:
         st = stage_of(o["spec"])
